@@ -90,7 +90,7 @@ package fit
 
 //@ func LOESS
 //@   model real
-//@   requires degree >= 0 && span > 0
+//@   requires degree >= 0 && span > 0 && len(ys) >= len(xs)
 //@   assigns nothing
 
 //@ assume func sort.Search
@@ -103,7 +103,8 @@ package fit
 // the sorted xs, ys, the window size q and the degree).
 //@ func LOESS#lit1
 //@   model real
-//@   requires len(xs) >= 2 && len(ys) >= len(xs) && 2 <= q && q <= len(xs) && degree >= 0 && (forall i in 0..len(xs), j in 0..len(xs) :: i < j ==> xs[i] < xs[j])
+//@   requires sortedF(xs) && len(ys) >= len(xs) && q <= len(xs) && degree >= 0
+//@   requires [given-distinct] len(xs) >= 2 && 2 <= q && (forall i in 0..len(xs), j in 0..len(xs) :: i < j ==> xs[i] < xs[j])
 //@   check @ret1 [window]  0 <= n && n + q <= len(xs) && len(closest) == q
 //@   check @ret1 [radius]  d == max(x - closest[0], closest[q-1] - x) && d > 0
 //@   check @ret1 [tricube] forall i in 0..q :: weights[i] == (1 - (abs(x - closest[i]) / d) * (abs(x - closest[i]) / d) * (abs(x - closest[i]) / d)) * (1 - (abs(x - closest[i]) / d) * (abs(x - closest[i]) / d) * (abs(x - closest[i]) / d)) * (1 - (abs(x - closest[i]) / d) * (abs(x - closest[i]) / d) * (abs(x - closest[i]) / d))
